@@ -427,15 +427,52 @@ bool prop_C18(Tape& t, Report& rep)
             if (gen::construct_ep(t, q)) break;
         return c18_one(q, rep, "constructed ep");
     }
-    // games (positions after real double pushes)
+    // games (positions after real double pushes); the key is also taken from the PLAYED position object, including after
+    // nested make/unmake (the book is probed on the engine's live position, not on a freshly loaded one)
     gen::Root game = gen::gen_walk(t, &rep, 60);
     rep.decoded = game.describe();
     ref::Pos rp = game.start;
+    Position played(ref::to_fen(game.start));
+    auto live_key_ok = [&](const char* when) -> bool {
+        rep.eval();
+        rep.cls("c18:key_of_played_position");
+        if (PolyglotBook::hash(played) != ref::polyglot_key(rp))
+            return rep.fail("polyglot:key:played_position", std::string("Polyglot key of the played position object differs from the specification (") + when + ")\n at " +
+                                                                ref::to_fen(rp) + "\n " + game.describe());
+        return true;
+    };
     if (!c18_one(rp, rep, game.describe())) return false;
     for (auto& m : game.moves)
     {
+        played.do_move(played.parse_uci(m.uci()));
         rp = ref::make(rp, m);
         if (!c18_one(rp, rep, game.describe())) return false;
+        if (!live_key_ok("after do_move")) return false;
+        if (t.chance(1, 3))
+        {
+            // a small make/unmake tree below this position (captures and promotions first), then the key again
+            std::vector<ref::Move> lm = ref::legal_moves(rp);
+            std::stable_sort(lm.begin(), lm.end(), [&](const ref::Move& a, const ref::Move& b) {
+                return int(a.promo != 0) * 2 + int(ref::is_capture(rp, a)) > int(b.promo != 0) * 2 + int(ref::is_capture(rp, b));
+            });
+            for (size_t k = 0; k < std::min<size_t>(lm.size(), 4); ++k)
+            {
+                Move e1 = played.parse_uci(lm[k].uci());
+                MoveInfo i1 = played.do_move(e1);
+                ref::Pos c1 = ref::make(rp, lm[k]);
+                std::vector<ref::Move> l2 = ref::legal_moves(c1);
+                std::stable_sort(l2.begin(), l2.end(), [&](const ref::Move& a, const ref::Move& b) { return int(ref::is_capture(c1, a)) > int(ref::is_capture(c1, b)); });
+                for (size_t j = 0; j < std::min<size_t>(l2.size(), 3); ++j)
+                {
+                    Move e2 = played.parse_uci(l2[j].uci());
+                    MoveInfo i2 = played.do_move(e2);
+                    played.undo_move(e2, i2);
+                }
+                played.undo_move(e1, i1);
+            }
+            rep.cls("c18:make_unmake_tree");
+            if (!live_key_ok("after a nested make/unmake tree")) return false;
+        }
     }
     return true;
 }
